@@ -140,10 +140,24 @@ def _uses_of(fn, locals_):
                         continue
                     if k == "MethodCall" and any(x is child for x in a["args"]):
                         names.add("arg:" + a["name"])
+                        if a["name"] in ("zip", "extend_from_slice", "copy_from_slice", "append"):
+                            names.add(a["name"])
                         break
+                    if k == "Block" and a.get("e") is child:
+                        child = a
+                        continue
+                    if k == "Match" and any(arm["body"] is child for arm in a["arms"]):
+                        child = a             # the value of the arm is the value of the match
+                        continue
+                    if k == "If" and (a.get("then") is child or a.get("else") is child):
+                        child = a
+                        continue
                     if k == "Call" and any(x is child for x in a["args"]):
                         f = strip(a["f"])
                         nm = (fn["crate"].dfn(f.get("def")) or {}).get("name") if f.get("k") == "Path" else None
+                        if nm in ("Some", "Ok", "Borrowed", "Owned") and len(a["args"]) == 1:
+                            child = a         # a wrapper that keeps the sequence as it is
+                            continue
                         names.add("arg:" + (nm or "?"))
                         if nm in ("from_shape_vec", "from_vec", "from_shape_vec_unchecked"):
                             names.add("from_shape_vec")
